@@ -29,7 +29,7 @@ PRINTABLE = string.printable[:95]
 
 
 def gen_junk(rng, long_ok=True):
-    k = rng.randrange(14)
+    k = rng.randrange(15)
     if k == 0:
         return "".join(rng.choice(PRINTABLE) for _ in range(rng.randint(1, 60))), "printable"
     if k == 1:
@@ -65,6 +65,11 @@ def gen_junk(rng, long_ok=True):
         return "".join(rng.choice(string.ascii_letters + string.digits) for _ in range(rng.randint(1, 12))), "alnum"
     if k == 12:
         return rng.choice(["\x0c", "a\x0bb", "\x1c x", "x\x1f", "\x7f", "\x01\x02", "a\rb"]) + rng.choice(["", " .", " :"]), "control"
+    if k == 13:
+        # parsable lines whose UNIT is made of brackets only / nested / unbalanced brackets (strip_brackets runs while the item is
+        # constructed, outside the guarded regex step)
+        u = rng.choice(["()", "[]", "[ ]", "( )", "(())", "[()]", "([])", "[[]]", "(", "[", ")", "]", "((", "[(", "(a", "a)", "[a]", "((a))", "[(a)]", "()()", "(]"])
+        return rng.choice([".%s", "x.%s 12 : y", "Q.%s :", "Q.%s 5 : d", "Q .%s  : d", ".%s : d"]) % u, "bracket-unit"
     return rng.choice([" ", "\t"]) * rng.randint(1, 3) + "".join(rng.choice(PRINTABLE) for _ in range(rng.randint(1, 20))), "indented"
 
 
